@@ -133,6 +133,9 @@ private:
    */
   void loadEdgeDest(std::ifstream& graphFile, uint64_t edgeStart,
                     uint64_t numEdgesToLoad, uint64_t numGlobalNodes) {
+    // the first local node's edges begin here even if there is nothing to load
+    edgeOffset = edgeStart;
+
     if (numEdgesToLoad == 0) {
       return;
     }
@@ -159,8 +162,6 @@ private:
     }
 
     assert(numBytesToLoad == 0);
-    // save edge offset of this graph for later use
-    edgeOffset = edgeStart;
   }
 
   /**
